@@ -692,6 +692,25 @@ class Discharger:
         if r == "unsat":
             res.update(status="discharged", time_s=time.time() - t0)
             return res
+        if r == "sat" and ob.abstract and getattr(pr, "subs", None):
+            # a model over the cut symbols need not be realisable by any input: look for a counterexample of the
+            # un-cut obligation (sat is usually the easy direction); unsat there also settles it
+            base0 = pr.pc + pr.divs + getattr(pr, "ob_divs", [])
+            inv = [(f, t) for t, f in pr.subs]  # cut symbols back to the terms they stand for
+            goal0 = z3.substitute(ob.goal, *inv)
+            g0 = logelim_eq(z3.substitute(ob.lhs, *inv), z3.substitute(ob.rhs, *inv)) if ob.kind == "eq" else None
+            tgt = g0 if g0 is not None else goal0
+            ex0 = [d != 0 for d in symx.collect_divisors([tgt])]
+            r0, m0 = self.solver.check(base0 + ex0 + [z3.Not(tgt)], self.ob_timeout_ms, want_model=True)
+            if r0 == "unsat":
+                res.update(status="discharged", solver="portfolio(uncut)", time_s=time.time() - t0)
+                return res
+            if r0 == "sat":
+                res.update(status="refuted", time_s=time.time() - t0, solver="portfolio(uncut)")
+                res["model"] = model_inputs(m0, pr.inputs)
+                res["model_all"] = _all_vars(m0)
+                res["uf_model"] = bool(uf)
+                return res
         if r == "sat":
             # try for a well-separated counterexample (easier to reproduce in floating point)
             m_nice = self._nice(pr, ob, base) if not (uf or ob.abstract) else None
